@@ -175,6 +175,22 @@ class C08Machine(RecordingMixin, RuleBasedStateMachine):
         if raised is None and len(self.circs) < 6:
             self.circs.append(res)
 
+    def do_iadd(self, a, b):
+        """total = A; total += B  - the augmented form of a sum rebinds the name; the circuit A itself (still referenced
+        by the pool, by parents it was added to, by the user) is an operand like in A + B"""
+        from lightworks.sdk.utils import ModeRangeError
+        A, B = self.circs[self.pick(a)], self.circs[self.pick(b)]
+
+        def run():
+            total = A
+            total += B
+            return total
+        res, raised = self.guarded("total = a; total += b", run, may_raise=(ModeRangeError, NotImplementedError,
+                                                                            TypeError))
+        if raised is None and res is not None and len(self.circs) < 6 and res is not A:
+            self.circs.append(res)
+        self.info_labels.add("augmented-sum")
+
     def do_copy(self, i, freeze):
         c = self.circs[self.pick(i)]
         res, _ = self.guarded("copy", lambda: c.copy(freeze_parameters=freeze))
@@ -475,6 +491,10 @@ class C08Machine(RecordingMixin, RuleBasedStateMachine):
     @rule(a=IDX, b=IDX)
     def r_plus(self, a, b):
         self.step("plus", a=a, b=b)
+
+    @rule(a=IDX, b=IDX)
+    def r_iadd(self, a, b):
+        self.step("iadd", a=a, b=b)
 
     @rule(i=IDX, freeze=st.booleans())
     def r_copy(self, i, freeze):
